@@ -490,6 +490,460 @@ theorem C19_partial {σ : Type} (cd : Codec σ) (hc : cd.Lawful) (fs : Files σ)
   ⟨C19_roundtrip_plain cd hc fs st, by simp [store, unstore]; exact settings_roundtrip _,
    by simp [store, unstore], by simp [store, unstore]⟩
 
+/-! ## Wave 2 — jsonpickle's object sharing (`py/id`) as a concrete codec -/
+
+mutual
+def agrees (h : Addr → Bool × Kids) : PV → Prop
+  | .atom _ => True
+  | .fresh _ k => agreesK h k
+  | .obj a l k => h a = (l, k) ∧ agreesK h k
+def agreesK (h : Addr → Bool × Kids) : Kids → Prop
+  | .nil => True
+  | .cons _ v r => agrees h v ∧ agreesK h r
+end
+
+mutual
+def acyc : PV → List Addr → Prop
+  | .atom _, _ => True
+  | .fresh _ k, st => acycK k st
+  | .obj a _ k, st => a ∉ st ∧ acycK k (a :: st)
+def acycK : Kids → List Addr → Prop
+  | .nil, _ => True
+  | .cons _ v r, st => acyc v st ∧ acycK r st
+end
+
+def valJ (h : Addr → Bool × Kids) (a : Addr) : J := .obj (h a).1 (unfoldKids (h a).2)
+
+structure R (h : Addr → Bool × Kids) (es : ES) (ds : DS) (st : List Addr) : Prop where
+  next : ds.next = es.next
+  lt : ∀ a n, lk a es.tab = some n → n < es.next
+  inj : ∀ a a' n, lk a es.tab = some n → lk a' es.tab = some n → a = a'
+  val : ∀ a n, lk a es.tab = some n → a ∈ st ∨ lkD n ds.done = some (valJ h a)
+
+theorem lk_cons (a b : Addr) (n : Nat) (tab : List (Addr × Nat)) :
+    lk a ((b, n) :: tab) = if b = a then some n else lk a tab := rfl
+
+mutual
+theorem enc_mono (t : PV) (es : ES) :
+    es.next ≤ (enc t es).2.next ∧ (∀ a n, lk a es.tab = some n → lk a (enc t es).2.tab = some n) ∧
+    (∀ a n, lk a (enc t es).2.tab = some n → lk a es.tab = some n ∨ es.next ≤ n) := by
+  cases t with
+  | atom s => exact ⟨Nat.le_refl _, fun _ _ h => h, fun _ _ h => Or.inl h⟩
+  | fresh l k =>
+    have ih := encKids_mono k { next := es.next + 1, tab := es.tab }
+    simp only [enc]
+    refine ⟨by have := ih.1; simp at this; omega, ih.2.1, ?_⟩
+    intro a n hn
+    rcases ih.2.2 a n hn with h | h
+    · exact Or.inl h
+    · right; simp at h; omega
+  | obj a l k =>
+    simp only [enc]
+    split
+    · exact ⟨Nat.le_refl _, fun _ _ h => h, fun _ _ h => Or.inl h⟩
+    · rename_i hnone
+      have ih := encKids_mono k { next := es.next + 1, tab := (a, es.next) :: es.tab }
+      refine ⟨by have := ih.1; simp only at this ⊢; omega, ?_, ?_⟩
+      · intro a' n hn
+        apply ih.2.1
+        simp only [lk_cons]
+        split
+        · rename_i heq; subst heq; rw [hnone] at hn; cases hn
+        · exact hn
+      · intro a' n hn
+        rcases ih.2.2 a' n hn with h | h
+        · simp only [lk_cons] at h
+          split at h
+          · right; cases h; omega
+          · exact Or.inl h
+        · right; simp at h; omega
+theorem encKids_mono (k : Kids) (es : ES) :
+    es.next ≤ (encKids k es).2.next ∧ (∀ a n, lk a es.tab = some n → lk a (encKids k es).2.tab = some n) ∧
+    (∀ a n, lk a (encKids k es).2.tab = some n → lk a es.tab = some n ∨ es.next ≤ n) := by
+  cases k with
+  | nil => exact ⟨Nat.le_refl _, fun _ _ h => h, fun _ _ h => Or.inl h⟩
+  | cons key v rest =>
+    have h1 := enc_mono v es
+    have h2 := encKids_mono rest (enc v es).2
+    simp only [encKids]
+    refine ⟨by omega, fun a n hn => h2.2.1 a n (h1.2.1 a n hn), ?_⟩
+    intro a n hn
+    rcases h2.2.2 a n hn with h | h
+    · rcases h1.2.2 a n h with h' | h'
+      · exact Or.inl h'
+      · exact Or.inr h'
+    · right; omega
+end
+
+mutual
+theorem enc_dec (h : Addr → Bool × Kids) (t : PV) (es : ES) (ds : DS) (st : List Addr)
+    (hr : R h es ds st) (ha : agrees h t) (hc : acyc t st) :
+    ∃ ds', dec true (enc t es).1 ds = some (unfold t, ds') ∧ R h (enc t es).2 ds' st := by
+  cases t with
+  | atom s => exact ⟨ds, by simp [enc, dec, unfold], by simpa [enc] using hr⟩
+  | fresh l k =>
+    simp only [agrees] at ha
+    simp only [acyc] at hc
+    have hr1 : R h { next := es.next + 1, tab := es.tab } { next := ds.next + 1, done := ds.done } st :=
+      ⟨by simp [hr.next], fun a n hn => by have := hr.lt a n hn; simp; omega, hr.inj, hr.val⟩
+    obtain ⟨ds2, hd, hr2⟩ := encKids_dec h k _ _ st hr1 ha hc
+    have hm := encKids_mono k { next := es.next + 1, tab := es.tab }
+    refine ⟨{ next := ds2.next, done := (ds.next, .obj l (unfoldKids k)) :: ds2.done }, ?_, ?_⟩
+    · simp only [enc, dec, hd, unfold]
+    · simp only [enc]
+      refine ⟨hr2.next, hr2.lt, hr2.inj, ?_⟩
+      intro a n hn
+      rcases hr2.val a n hn with hv | hv
+      · exact Or.inl hv
+      · right
+        have hne : ds.next ≠ n := by
+          rcases hm.2.2 a n hn with h' | h'
+          · have := hr.lt a n h'; rw [hr.next]; omega
+          · simp at h'; rw [hr.next]; omega
+        simp only [lkD, hne, if_false]
+        exact hv
+  | obj a l k =>
+    simp only [agrees] at ha
+    simp only [acyc] at hc
+    simp only [enc]
+    split
+    · rename_i n hn
+      refine ⟨ds, ?_, hr⟩
+      rcases hr.val a n hn with hv | hv
+      · exact absurd hv hc.1
+      · simp only [dec, if_true, hv, Option.map_some, unfold, valJ, ha.1]
+    · rename_i hnone
+      have hr1 : R h { next := es.next + 1, tab := (a, es.next) :: es.tab }
+          { next := ds.next + 1, done := ds.done } (a :: st) := by
+        refine ⟨by simp [hr.next], ?_, ?_, ?_⟩
+        · intro a' n hn
+          simp only [lk_cons] at hn
+          split at hn
+          · cases hn; simp
+          · have := hr.lt a' n hn; simp; omega
+        · intro a1 a2 n h1 h2
+          simp only [lk_cons] at h1 h2
+          split at h1 <;> split at h2
+          · rename_i e1 e2; rw [← e1, ← e2]
+          · cases h1; have := hr.lt a2 _ h2; omega
+          · cases h2; have := hr.lt a1 _ h1; omega
+          · exact hr.inj a1 a2 n h1 h2
+        · intro a' n hn
+          simp only [lk_cons] at hn
+          split at hn
+          · rename_i e; left; simp [e]
+          · rcases hr.val a' n hn with hv | hv
+            · left; simp [hv]
+            · right; exact hv
+      obtain ⟨ds2, hd, hr2⟩ := encKids_dec h k _ _ (a :: st) hr1 ha.2 hc.2
+      have hm := encKids_mono k { next := es.next + 1, tab := (a, es.next) :: es.tab }
+      have hla : lk a (encKids k { next := es.next + 1, tab := (a, es.next) :: es.tab }).2.tab = some es.next :=
+        hm.2.1 a es.next (by simp [lk_cons])
+      refine ⟨{ next := ds2.next, done := (ds.next, .obj l (unfoldKids k)) :: ds2.done }, ?_, ?_⟩
+      · simp only [dec, hd, unfold]
+      · refine ⟨hr2.next, hr2.lt, hr2.inj, ?_⟩
+        intro a' n hn
+        by_cases haa : a' = a
+        · subst haa
+          right
+          rw [hla] at hn
+          cases hn
+          simp [lkD, hr.next, valJ, ha.1]
+        · rcases hr2.val a' n hn with hv | hv
+          · left
+            rcases List.mem_cons.mp hv with e | e
+            · exact absurd e haa
+            · exact e
+          · right
+            have hne : ds.next ≠ n := by
+              intro e
+              apply haa
+              apply hr2.inj a' a n hn
+              rw [hla, ← hr.next, e]
+            simp only [lkD, hne, if_false]
+            exact hv
+theorem encKids_dec (h : Addr → Bool × Kids) (k : Kids) (es : ES) (ds : DS) (st : List Addr)
+    (hr : R h es ds st) (ha : agreesK h k) (hc : acycK k st) :
+    ∃ ds', decKids true (encKids k es).1 ds = some (unfoldKids k, ds') ∧ R h (encKids k es).2 ds' st := by
+  cases k with
+  | nil => exact ⟨ds, by simp [encKids, decKids, unfoldKids], by simpa [encKids] using hr⟩
+  | cons key v rest =>
+    simp only [agreesK] at ha
+    simp only [acycK] at hc
+    obtain ⟨ds1, hd1, hr1⟩ := enc_dec h v es ds st hr ha.1 hc.1
+    obtain ⟨ds2, hd2, hr2⟩ := encKids_dec h rest _ ds1 st hr1 ha.2 hc.2
+    exact ⟨ds2, by simp only [encKids, decKids, hd1, hd2, unfoldKids], by simpa [encKids] using hr2⟩
+end
+
+/-- the pickler followed by the unpickler gives back the value, for every consistent acyclic object graph -/
+theorem pickle_roundtrip (h : Addr → Bool × Kids) (t : PV) (ha : agrees h t) (hc : acyc t []) :
+    decode true (encode t) = some (unfold t) := by
+  obtain ⟨ds', hd, _⟩ := enc_dec h t { next := 0, tab := [] } { next := 0, done := [] } []
+    ⟨rfl, by simp [lk], by simp [lk], by simp [lk]⟩ ha hc
+  simp [decode, encode, hd]
+
+mutual
+theorem dec_noRef (j : J) (ds : DS) (hn : noRef j = true) : dec false j ds = dec true j ds := by
+  cases j with
+  | atom s => simp [dec]
+  | ref n => simp [noRef] at hn
+  | obj l k =>
+    simp only [noRef] at hn
+    simp only [dec, decKids_noRef k _ hn]
+theorem decKids_noRef (k : JKids) (ds : DS) (hn : noRefKids k = true) : decKids false k ds = decKids true k ds := by
+  cases k with
+  | nil => simp [decKids]
+  | cons key v rest =>
+    simp only [noRefKids, Bool.and_eq_true] at hn
+    simp only [decKids, dec_noRef v ds hn.1]
+    cases hd : dec true v ds with
+    | none => rfl
+    | some r1 => simp only [decKids_noRef rest r1.2 hn.2]
+end
+
+
+/-! ### the settings part of a stored session is a consistent acyclic object graph -/
+
+theorem canon_get {α : Type} [BEq α] [LawfulBEq α] (ident : Nat → Nat) (items : List α) (i : Nat) :
+    items[canon ident items i]? = items[i]? := by
+  unfold canon
+  split
+  · rename_i j hj
+    have := List.find?_some hj
+    simp only [Bool.and_eq_true, beq_iff_eq] at this
+    exact this.2
+  · rfl
+
+theorem agrees_valPV (h : Addr → Bool × Kids) (v : Val) : agrees h (valPV v) := by
+  unfold valPV; split <;> simp [agrees, agreesK]
+
+theorem acyc_valPV (st : List Addr) (v : Val) : acyc (valPV v) st := by
+  unfold valPV; split <;> simp [acyc, acycK]
+
+theorem agreesK_rowKids (h : Addr → Bool × Kids) : ∀ r : Row, agreesK h (rowKids r)
+  | [] => by simp [rowKids, agreesK]
+  | (p, v) :: r => by simp [rowKids, agreesK, agrees_valPV, agreesK_rowKids h r]
+
+theorem acycK_rowKids (st : List Addr) : ∀ r : Row, acycK (rowKids r) st
+  | [] => by simp [rowKids, acycK]
+  | (p, v) :: r => by simp [rowKids, acycK, acyc_valPV, acycK_rowKids st r]
+
+/-- the heap of the plain settings log: object `(0, j)` is the row logged by step j -/
+def logHeap (rows : List Row) : Addr → Bool × Kids := fun a => (false, rowKids ((rows[a.2]?).getD []))
+
+theorem agreesK_logKids (ident : Nat → Nat) (rows : List Row) : ∀ (log : Log) (i : Nat),
+    (∀ m, (log[m]?).map (·.2) = rows[i + m]?) → agreesK (logHeap rows) (logKids ident rows i log)
+  | [], _, _ => by simp [logKids, agreesK]
+  | (t, row) :: rest, i, hm => by
+    simp only [logKids, agreesK, agrees]
+    refine ⟨⟨?_, agreesK_rowKids _ row⟩, agreesK_logKids ident rows rest (i + 1) ?_⟩
+    · have h0 := hm 0
+      simp only [List.getElem?_cons_zero, Option.map_some, Nat.add_zero] at h0
+      simp only [logHeap, canon_get, ← h0, Option.getD_some]
+    · intro m
+      have := hm (m + 1)
+      simp only [List.getElem?_cons_succ] at this
+      rw [this]; congr 1; omega
+
+theorem acycK_logKids (ident : Nat → Nat) (rows : List Row) : ∀ (log : Log) (i : Nat),
+    acycK (logKids ident rows i log) []
+  | [], _ => by simp [logKids, acycK]
+  | (t, row) :: rest, i => by
+    simp only [logKids, acycK, acyc]
+    exact ⟨⟨by simp, acycK_rowKids _ row⟩, acycK_logKids ident rows rest (i + 1)⟩
+
+theorem valOfJ_valPV (v : Val) : valOfJ (unfold (valPV v)) = some v := by
+  unfold valPV; split <;> simp [unfold, unfoldKids, valOfJ]
+
+theorem rowOfJ_rowKids : ∀ r : Row, rowOfJ (unfoldKids (rowKids r)) = some r
+  | [] => by simp [rowKids, unfoldKids, rowOfJ]
+  | (p, v) :: r => by
+    simp [rowKids, unfoldKids, rowOfJ, valOfJ_valPV, rowOfJ_rowKids r]
+
+theorem logOfJK_logKids (ident : Nat → Nat) (rows : List Row) : ∀ (log : Log) (i : Nat),
+    logOfJK (unfoldKids (logKids ident rows i log)) = some log
+  | [], _ => by simp [logKids, unfoldKids, logOfJK]
+  | (t, row) :: rest, i => by
+    simp [logKids, unfoldKids, unfold, logOfJK, logOfJK_logKids ident rows rest (i + 1), rowOfJ_rowKids]
+
+/-- plain mode: whatever the aliasing pattern between the logged settings objects, writing the settings
+log with the pickler and reading it with the unpickler gives the log back -/
+theorem settingsLog_pickle (ident : Nat → Nat) (log : Log) :
+    (decode true (encode (logPV ident log))).bind logOfTree = some log := by
+  have := pickle_roundtrip (logHeap (log.map (·.2))) (logPV ident log)
+    (by simp only [logPV, agrees]
+        exact agreesK_logKids ident _ log 0 (by intro m; simp))
+    (by simp only [logPV, acyc]; exact acycK_logKids ident _ log 0)
+  rw [this]
+  simp [logPV, unfold, logOfTree, logOfJK_logKids]
+
+/-- the heap of the compressed columns: object `(c+1, k)` is the value of entry k of column c -/
+def colsHeap (cols : List (Path × List (Nat × Val))) : Addr → Bool × Kids := fun a =>
+  (true, .cons (.num 0) (.atom (.str (((((cols[a.1 - 1]?).map (·.2)).getD []).map (·.2))[a.2]?.getD ""))) .nil)
+
+theorem agreesK_colKids (cols : List (Path × List (Nat × Val))) (idAt : Nat → Nat) (c : Nat) (vals : List Val)
+    (hv : (((cols[c]?).map (·.2)).getD []).map (·.2) = vals) : ∀ (col : List (Nat × Val)) (k : Nat),
+    (∀ m, (col[m]?).map (·.2) = vals[k + m]?) → agreesK (colsHeap cols) (colKids idAt c vals k col)
+  | [], _, _ => by simp [colKids, agreesK]
+  | (i, v) :: rest, k, hm => by
+    simp only [colKids, agreesK, agrees]
+    refine ⟨⟨trivial, ?_, trivial⟩, agreesK_colKids cols idAt c vals hv rest (k + 1) ?_⟩
+    · unfold cvalPV
+      split
+      · simp only [agrees, agreesK, and_true]
+        have h0 := hm 0
+        simp only [List.getElem?_cons_zero, Option.map_some, Nat.add_zero] at h0
+        simp only [colsHeap, Nat.add_sub_cancel, hv, canon_get, ← h0, Option.getD_some]
+      · simp [agrees]
+    · intro m
+      have := hm (m + 1)
+      simp only [List.getElem?_cons_succ] at this
+      rw [this]; congr 1; omega
+
+theorem acycK_colKids (idAt : Nat → Nat) (c : Nat) (vals : List Val) : ∀ (col : List (Nat × Val)) (k : Nat),
+    acycK (colKids idAt c vals k col) []
+  | [], _ => by simp [colKids, acycK]
+  | (i, v) :: rest, k => by
+    simp only [colKids, acycK, acyc]
+    refine ⟨⟨trivial, ?_, trivial⟩, acycK_colKids idAt c vals rest (k + 1)⟩
+    unfold cvalPV; split <;> simp [acyc, acycK]
+
+theorem agreesK_colsKids (ident : Nat → Nat) (cols : List (Path × List (Nat × Val))) :
+    ∀ (suffix : List (Path × List (Nat × Val))) (c : Nat),
+    (∀ m, suffix[m]? = cols[c + m]?) → agreesK (colsHeap cols) (colsKids ident c suffix)
+  | [], _, _ => by simp [colsKids, agreesK]
+  | (p, col) :: rest, c, hm => by
+    simp only [colsKids, agreesK, agrees]
+    refine ⟨agreesK_colKids cols _ c _ ?_ col 0 (by intro m; simp), agreesK_colsKids ident cols rest (c + 1) ?_⟩
+    · have h0 := hm 0
+      simp only [List.getElem?_cons_zero, Nat.add_zero] at h0
+      simp [← h0]
+    · intro m
+      have := hm (m + 1)
+      simp only [List.getElem?_cons_succ] at this
+      rw [this]; congr 1; omega
+
+theorem acycK_colsKids (ident : Nat → Nat) : ∀ (suffix : List (Path × List (Nat × Val))) (c : Nat),
+    acycK (colsKids ident c suffix) []
+  | [], _ => by simp [colsKids, acycK]
+  | (p, col) :: rest, c => by
+    simp only [colsKids, acycK, acyc]
+    exact ⟨acycK_colKids _ c _ col 0, acycK_colsKids ident rest (c + 1)⟩
+
+theorem valOfJ_cvalPV (c j : Nat) (v : Val) : valOfJ (unfold (cvalPV c j v)) = some v := by
+  unfold cvalPV; split <;> simp [unfold, unfoldKids, valOfJ]
+
+theorem colOfJK_colKids (idAt : Nat → Nat) (c : Nat) (vals : List Val) : ∀ (col : List (Nat × Val)) (k : Nat),
+    colOfJK (unfoldKids (colKids idAt c vals k col)) = some col
+  | [], _ => by simp [colKids, unfoldKids, colOfJK]
+  | (i, v) :: rest, k => by
+    simp [colKids, unfoldKids, unfold, colOfJK, entryOfJ, valOfJ_cvalPV, colOfJK_colKids idAt c vals rest (k + 1)]
+
+theorem colsOfJK_colsKids (ident : Nat → Nat) : ∀ (suffix : List (Path × List (Nat × Val))) (c : Nat),
+    colsOfJK (unfoldKids (colsKids ident c suffix)) = some suffix
+  | [], _ => by simp [colsKids, unfoldKids, colsOfJK]
+  | (p, col) :: rest, c => by
+    simp [colsKids, unfoldKids, unfold, colsOfJK, colsOfJK_colsKids ident rest (c + 1), colOfJK_colKids]
+
+/-- compressed mode: the same for the `[index, value]` columns, list-valued settings shared between entries included -/
+theorem settingsCols_pickle (ident : Nat → Nat) (cols : List (Path × List (Nat × Val))) :
+    (decode true (encode (colsPV ident cols))).bind colsOfTree = some cols := by
+  have := pickle_roundtrip (colsHeap cols) (colsPV ident cols)
+    (by simp only [colsPV, agrees]
+        exact agreesK_colsKids ident cols cols 0 (by intro m; simp))
+    (by simp only [colsPV, acyc]; exact acycK_colsKids ident cols 0)
+  rw [this]
+  simp [colsPV, unfold, colsOfTree, colsOfJK_colsKids]
+
+/-- the FileAdapter with the concrete pickler is a lawful codec whenever its reader resolves `py/id` -/
+theorem pickleCodec_lawful (c : Cfg) (hg : c.good = true) (ident : Nat → Nat) : (pickleCodec c ident).Lawful := by
+  intro e
+  have hres : c.decoderResolvesRefs = true := hg
+  obtain ⟨id, timeout, step, stored⟩ := e
+  cases stored with
+  | plain s =>
+    have := settingsLog_pickle ident s.settingsLog
+    simp only [Option.bind_eq_some_iff] at this
+    obtain ⟨t, ht, hl⟩ := this
+    simp [pickleCodec, settingsJ, blankS, hres, ht, fillS, hl]
+  | compressed sp st cs cr =>
+    have := settingsCols_pickle ident cs.cols
+    simp only [Option.bind_eq_some_iff] at this
+    obtain ⟨t, ht, hl⟩ := this
+    simp [pickleCodec, settingsJ, blankS, hres, ht, fillS, hl]
+
+
+/-! ### the property with the concrete pickler -/
+
+/-- the two clauses of `C19_full` for one codec and one adapter mode -/
+def C19_for {σ : Type} (cd : Codec σ) (compress : Bool) : Prop :=
+    (∀ (spec : RunSpec) (ops : List StepOp) (id timeout : Nat) (fs : Files σ),
+      let s := run spec ops
+      ∃ st', loadInstance cd (saveInstance cd compress fs (instanceState id timeout s)) id = some st' ∧
+        StateEq st' (instanceState id timeout s) ∧ sessionResults st'.state = sessionResults s) ∧
+    (∀ (hist : List (Nat × Nat × RunSpec × List StepOp)) (fs : Files σ),
+      (hist.map (·.1)).Nodup →
+      let sts := hist.map fun h => instanceState h.1 h.2.1 (run h.2.2.1 h.2.2.2)
+      ∀ st ∈ sts, ∃ st' ∈ loadState cd (saveState cd compress fs sts) (sts.map (·.id)),
+        StateEq st' st ∧ sessionResults st'.state = sessionResults st.state)
+
+theorem C19_full_iff : C19_full ↔ ∀ (σ : Type) (cd : Codec σ), cd.Lawful → ∀ compress, C19_for cd compress := Iff.rfl
+
+/-- C19 with the mechanism fact: the old statement (every lawful codec) AND the same two clauses for the
+FileAdapter with the concrete pickler, for EVERY aliasing pattern `ident` between the logged settings objects. -/
+def C19_full_cfg (c : Cfg) : Prop :=
+  C19_full ∧ ∀ (ident : Nat → Nat) (compress : Bool), C19_for (pickleCodec c ident) compress
+
+theorem C19_full_of_good (c : Cfg) (h : c.good = true) : C19_full_cfg c :=
+  ⟨C19_full_holds, fun ident compress => C19_full_holds _ _ (pickleCodec_lawful c h ident) compress⟩
+
+def shareSpec : RunSpec := { paths := [0], start := 2048, dt := 512, stop := 10240 }
+/-- `run-steps` with `numberSteps = 2`: one settings object logged for two steps -/
+def shareOps : List StepOp := [⟨some [(7, "5.0")], fun _ => "0.0"⟩, ⟨some [(7, "5.0")], fun _ => "2.5"⟩]
+/-- the same with a list-valued (`points`) setting -/
+def sharePointsOps : List StepOp := [⟨some [(9, "5b5b302e30")], fun _ => "0.0"⟩, ⟨some [(9, "5b5b302e30")], fun _ => "2.5"⟩]
+
+/-- a reader that does not resolve `py/id` (plain `json.loads`) does not restore a session in which one
+settings object was logged for two steps: the second entry comes back as `{"py/id": n}` -/
+theorem C19_witness_plain_reader (c : Cfg) (h : c.decoderResolvesRefs = false) : ¬ C19_full_cfg c := by
+  intro hf
+  obtain ⟨st', hl, _⟩ := (hf.2 (fun _ => 0) false).1 shareSpec shareOps 0 0 (fun _ => none)
+  obtain ⟨r⟩ := c
+  simp only at h
+  subst h
+  have : loadInstance (pickleCodec ⟨false⟩ (fun _ => 0))
+      (saveInstance (pickleCodec ⟨false⟩ (fun _ => 0)) false (fun _ => none) (instanceState 0 0 (run shareSpec shareOps))) 0
+      = none := by decide +kernel
+  rw [this] at hl
+  cases hl
+
+/-- the same in compressed mode with a list-valued setting: the value of the second column entry is a back-reference -/
+theorem C19_witness_plain_reader_compressed :
+    loadInstance (pickleCodec ⟨false⟩ (fun _ => 0))
+      (saveInstance (pickleCodec ⟨false⟩ (fun _ => 0)) true (fun _ => none) (instanceState 0 0 (run shareSpec sharePointsOps))) 0
+      = none := by decide +kernel
+
+theorem decode_noRef (r : Bool) (j : J) (hn : noRef j = true) : decode r j = decode true j := by
+  cases r with
+  | true => rfl
+  | false => simp only [decode, dec_noRef j _ hn]
+
+/-- What holds whatever the reader does with `py/id`: an envelope whose written settings part contains no
+back-reference (no settings object logged twice, e.g. only `run-step` requests over HTTP) is read back. -/
+theorem C19_partial_cfg (c : Cfg) (ident : Nat → Nat) (e : Envelope) (hn : noRef (settingsJ ident e.stored) = true) :
+    (pickleCodec c ident).dec ((pickleCodec c ident).enc e) = some e := by
+  have hgood := pickleCodec_lawful ⟨true⟩ rfl ident e
+  simp only [pickleCodec] at hgood ⊢
+  rw [decode_noRef _ _ hn]
+  exact hgood
+
+/-- non-vacuity: the back-reference really is in the written text, and the unpickler restores both modes -/
+example : noRef (settingsJ (fun _ => 0) (store false (run shareSpec shareOps))) = false := by decide +kernel
+example : noRef (settingsJ (fun _ => 0) (store true (run shareSpec sharePointsOps))) = false := by decide +kernel
+example : loadInstance (pickleCodec ⟨true⟩ (fun _ => 0))
+      (saveInstance (pickleCodec ⟨true⟩ (fun _ => 0)) true (fun _ => none) (instanceState 0 0 (run shareSpec sharePointsOps))) 0
+      = some (instanceState 0 0 (unstore (store true (run shareSpec sharePointsOps)))) := by decide +kernel
+
 /-! ### non-vacuity and the shapes named in the statement -/
 
 /-- the identity codec is lawful, so the hypothesis `Codec.Lawful` is satisfiable -/
@@ -520,5 +974,14 @@ example : (compressSettings (run demoSpec demoOps).settingsLog) =
 #print axioms uniform_run
 #print axioms keys_run
 #print axioms idCodec_lawful
+#print axioms pickle_roundtrip
+#print axioms dec_noRef
+#print axioms settingsLog_pickle
+#print axioms settingsCols_pickle
+#print axioms pickleCodec_lawful
+#print axioms C19_full_of_good
+#print axioms C19_witness_plain_reader
+#print axioms C19_witness_plain_reader_compressed
+#print axioms C19_partial_cfg
 
 end Bptk.C19
